@@ -12,7 +12,7 @@ from vf.strategies import uniform_int
 
 P, R = B.P, B.R
 RULE = ("for (suite, sk, message) from Hypothesis and an entry point (Verify of the three suites, PopVerify) a "
-        "96-byte candidate is built by the model from a tagged union: canonical; sk'*H(m) for sk' in {sk-1, sk+1, "
+        "96-byte candidate is built by the model from a tagged union: canonical (also for messages starting with the key bytes, at SHA-256 block and 64 KiB boundaries, and for keys whose signature has a coordinate word with leading byte 0x1a or 0x00); sk'*H(m) for sk' in {sk-1, sk+1, "
         "r-sk, random}; signature of another message; signature under each other suite's tag, a possession "
         "proof offered as a signature of the key bytes and vice versa, an augmentation-suite signature made "
         "without the key prefix; -S; 2S; S+T for cofactor torsion T (full component, order 13, order 23); the "
